@@ -14,11 +14,45 @@ _KNOWN = None
 
 
 def known_fns():
+    """path -> {"params": [names by position], "binds": [[name, type] in source order]} of the tree the rules were written against"""
     global _KNOWN
     if _KNOWN is None:
         p = os.path.join(os.path.dirname(os.path.abspath(__file__)), "known_fns.json")
-        _KNOWN = set(json.load(open(p))) if os.path.exists(p) else set()
+        _KNOWN = json.load(open(p)) if os.path.exists(p) else {}
     return _KNOWN
+
+
+def signature_of(f):
+    params = []
+    for p in f.get("params", []):
+        b = pat_bindings(p)
+        params.append(b[0][0] if len(b) == 1 and p.get("k") == "pbind" else None)
+    binds = [[n["name"], n.get("ty")] for n in walk(f["body"]) if n.get("k") == "pbind"]
+    return {"params": params, "binds": binds}
+
+
+def rename_to_known(g):
+    """names are role labels for the rules: parameters are renamed to the known names by position; local bindings are renamed
+       to the known names when the sequence of binding types is unchanged (a pure renaming).  Works in place on a private copy."""
+    k = known_fns().get(g["path"])
+    if not k:
+        return
+    ren = {}
+    if len(k["params"]) == len(g.get("params", [])):
+        for want, p in zip(k["params"], g["params"]):
+            if want and p.get("k") == "pbind" and p["name"] != want:
+                ren[p["id"]] = want
+    cur = [n for n in walk(g["body"]) if n.get("k") == "pbind"]
+    if len(cur) == len(k["binds"]) and all(n.get("ty") == t for n, (_, t) in zip(cur, k["binds"])):
+        for n, (want, _) in zip(cur, k["binds"]):
+            if n["name"] != want:
+                ren[n["id"]] = want
+    if not ren:
+        return
+    for n in list(walk(g["body"])) + [x for p in g.get("params", []) for x in walk(p)]:
+        if n.get("k") in ("local", "pbind") and n.get("id") in ren:
+            n["name"] = ren[n["id"]]
+    g["renamed"] = sorted(set(ren.values()))
 
 
 def _offset_ids(n, off):
@@ -40,7 +74,7 @@ def _offset_ids(n, off):
 def callers_of(crate):
     """callee path -> set of caller paths (direct calls only)"""
     out = {}
-    for p, fl in crate.fns.items():
+    for p, fl in crate.raw_fns.items():
         for f in fl:
             for n in walk(f["body"]):
                 c = callee(n) if n.get("k") in ("call", "mcall") else None
@@ -51,28 +85,25 @@ def callers_of(crate):
 
 def inline_helpers(f, crate, depth=2, _callers=None, _counter=None):
     """returns a copy of f whose body has calls to new private single-caller helpers replaced by their bodies"""
-    if _callers is None:
-        _callers = crate.__dict__.setdefault("_callers", None) or callers_of(crate)
-        crate.__dict__["_callers"] = _callers
     if _counter is None:
         _counter = [0]
     known = known_fns()
     g = dict(f)
     g["body"] = copy.deepcopy(f["body"])
+    g["params"] = copy.deepcopy(f.get("params", []))
+    rename_to_known(g)
     changed = [False]
 
     def helper_of(n):
         c = callee(n)
         if not c or c in known or c == f["path"]:
             return None
-        fl = crate.fns.get(c)
+        fl = crate.raw_fns.get(c)
         if not fl or len(fl) != 1:
             return None
         h = fl[0]
-        if h.get("kind") not in ("Fn", "AssocFn") or h.get("vis") == "pub":
+        if h.get("kind") not in ("Fn", "AssocFn"):
             return None
-        if _callers.get(c, set()) - {f["path"]}:
-            return None   # also used elsewhere: not a helper of this function only
         if c in known:
             return None
         return h
@@ -137,4 +168,74 @@ def prepare(f, crate):
     """inlined copy + alias registration (idempotent per function object)"""
     g = inline_helpers(f, crate)
     _tree.ALIASES.update(collect_aliases(g))
+    for n in walk(g["body"]):
+        if n.get("k") == "let" and "init" in n and "els" not in n and n["pat"].get("k") == "pbind" and not n["pat"].get("mut") and "sub" not in n["pat"]:
+            _tree.LET_INITS[n["pat"]["id"]] = n["init"]
     return g
+
+
+def opt_elim(n):
+    """normal form of an Option elimination: {scrut, bind, some, none} for
+       `s.unwrap_or(d)`, `s.unwrap_or_else(|| d)`, `match s {Some(x) => a, None => b}`, `if let Some(x) = s {a} else {b}`, `s.map_or(d, |x| a)`;
+       `bind` is the id bound to the payload (None: the payload itself is the result)"""
+    n = peel(n)
+    while n.get("k") == "blockexpr" and not n["b"]["stmts"] and "tail" in n["b"]:
+        n = peel(n["b"]["tail"])
+    k = n.get("k")
+    if k == "mcall" and n["name"] in ("unwrap_or", "unwrap_or_else", "unwrap_or_default") and "Option" in (n.get("path") or ""):
+        d = n["args"][0] if n["args"] else None
+        if n["name"] == "unwrap_or_else" and d is not None and peel(d).get("k") == "closure":
+            d = peel(d)["body"]
+        return {"scrut": n["recv"], "bind": None, "some": None, "none": d}
+    if k == "mcall" and n["name"] == "map_or" and "Option" in (n.get("path") or ""):
+        d, fcl = n["args"]
+        fcl = peel(fcl)
+        if fcl.get("k") == "closure" and len(fcl["params"]) == 1:
+            b = pat_bindings(fcl["params"][0])
+            return {"scrut": n["recv"], "bind": b[0][1] if len(b) == 1 else None, "some": fcl["body"], "none": d}
+    arms = None
+    if k == "match":
+        arms = [(a["pat"], a["body"]) for a in n["arms"] if "guard" not in a]
+        scrut = n["scrut"]
+        if len(arms) != len(n["arms"]):
+            return None
+    elif k == "if" and peel(n["cond"]).get("k") == "letexpr" and "else" in n:
+        c = peel(n["cond"])
+        arms = [(c["pat"], n["then"]), ({"k": "pwild"}, n["else"])]
+        scrut = c["init"]
+    if arms and len(arms) == 2:
+        some = none = None
+        for pat, body in arms:
+            while pat.get("k") == "pref":
+                pat = pat["sub"]
+            if pat.get("k") == "pvariant" and pat["path"].endswith("Option::Some") and len(pat["subs"]) == 1:
+                some = (pat["subs"][0], body)
+            elif pat.get("k") == "pwild" or (pat.get("k") in ("pvariant", "pconst") and pat.get("path", "").endswith("Option::None")):
+                none = body
+        if some and none is not None:
+            b = pat_bindings(some[0])
+            return {"scrut": scrut, "bind": b[0][1] if len(b) == 1 else None, "some": some[1], "none": none}
+    return None
+
+
+def tail_value(e):
+    """the value expression of a block-like expression (peels blocks without statements)"""
+    e = peel(e)
+    while e.get("k") in ("blockexpr", "block"):
+        b = e["b"] if e.get("k") == "blockexpr" else e
+        if b.get("stmts") or "tail" not in b:
+            break
+        e = peel(b["tail"])
+    return e
+
+
+def converts_param(e, pid):
+    """e is the parameter pid itself or a lossless conversion of it (`.into()`, `T::from(p)`, `&p`), looking through lets"""
+    e = resolve(e)
+    if is_local(e, pid):
+        return True
+    if e.get("k") == "mcall" and e["name"] in ("into", "index", "clone") and not e["args"]:
+        return converts_param(e["recv"], pid)
+    if e.get("k") == "call" and (callee(e) or "").endswith("::from") and len(e["args"]) == 1:
+        return converts_param(e["args"][0], pid)
+    return False
